@@ -156,8 +156,21 @@ class CardsMonitor:
             i = op.player_index
             if '??' not in prev['hole'][i]:
                 if cur != prev:
-                    ch = [k for k in cur if cur[k] != prev[k]]
-                    self._viol(st, op, ctx, 'show-moved-cards', f'showing known cards changed {ch}')
+                    # a partial show may *forget* the cards kept face down (the engine does so at the final showdown): those
+                    # cards, and only those, leave the hand for the undealt deck and the hand keeps unknown placeholders
+                    rec = [repr(c) for c in op.hole_cards]
+                    hidden = [c for c, r in zip(prev['hole'][i], rec) if r == '??']
+                    ok = bool(hidden) and len(rec) == len(prev['hole'][i])
+                    if ok:
+                        want_hole = [c if r != '??' else '??' for c, r in zip(prev['hole'][i], rec)]
+                        ok = (cur['hole'][i] == want_hole and Counter(cur['deck']) == Counter(prev['deck']) + Counter(hidden)
+                              and all(cur[k] == prev[k] for k in cur if k not in ('hole', 'deck'))
+                              and all(cur['hole'][j] == prev['hole'][j] for j in range(len(cur['hole'])) if j != i))
+                    if ok:
+                        ctx.counters['partial_shows_forgetting_hidden_cards'] += 1
+                    else:
+                        ch = [k for k in cur if cur[k] != prev[k]]
+                        self._viol(st, op, ctx, 'show-moved-cards', f'showing known cards changed {ch}')
         else:
             if cur != prev:
                 ch = [k for k in cur if cur[k] != prev[k]]
